@@ -374,7 +374,7 @@ func (s *mState) key() string {
 	return sb.String()
 }
 
-var c15ScriptGlobals = map[string][]string{"const": {"cst"}, "copyx": {"gx"}, "addi": {"gi"}, "adds": {"gs"}, "arr": {"arr", "n"}, "map": {"m"}, "loop": {"acc"}, "decl": {"late"}, "fail": {"nf"}}
+var c15ScriptGlobals = map[string][]string{"const": {"cst"}, "copyx": {"gx"}, "addi": {"gi"}, "adds": {"gs"}, "arr": {"arr", "n"}, "map": {"m"}, "loop": {"acc"}, "loopi": {"acc2"}, "ifblk": {"blk"}, "decl": {"late"}, "fail": {"nf"}}
 
 // effect of one statement on a store. ok=false: the statement fails at run time.
 func mApply(st gen.C15Stmt, store map[string]plan.Value) bool {
@@ -408,6 +408,16 @@ func mApply(st gen.C15Stmt, store map[string]plan.Value) bool {
 			acc += 3
 		}
 		store["acc"] = plan.Int(acc)
+	case "loopi":
+		store["acc2"] = plan.Int(st.C * (st.C - 1) / 2)
+		if st.C <= 0 {
+			store["acc2"] = plan.Int(0)
+		}
+	case "ifblk":
+		store["blk"] = plan.Int(0)
+		if get("ini").I != 0 {
+			store["blk"] = plan.Int(get("ini").I + st.C)
+		}
 	case "decl":
 		store["late"] = plan.Int(st.C)
 	case "fail":
@@ -452,7 +462,7 @@ func mRun(sc *gen.C15Script, start map[string]plan.Value, hostFaultAt int, hostN
 			continue
 		}
 		// multi-effect statements can be cut in the middle by an asynchronous stop
-		if anyPrefix && (st.K == "arr" || st.K == "map" || st.K == "loop" || st.K == "fail") {
+		if anyPrefix && (st.K == "arr" || st.K == "map" || st.K == "loop" || st.K == "fail" || st.K == "loopi" || st.K == "ifblk") {
 			for _, part := range mPartials(st, store) {
 				outs = append(outs, mRunOutcome{store: part, failed: true, why: "prefix"})
 			}
@@ -504,6 +514,16 @@ func mPartials(st gen.C15Stmt, store map[string]plan.Value) []map[string]plan.Va
 		}
 	case "fail":
 		add(func(m map[string]plan.Value) { m["nf"] = plan.Int(5) })
+	case "loopi":
+		sum := int64(0)
+		add(func(m map[string]plan.Value) { m["acc2"] = plan.Int(0) })
+		for i := int64(0); i < st.C; i++ {
+			sum += i
+			x := sum
+			add(func(m map[string]plan.Value) { m["acc2"] = plan.Int(x) })
+		}
+	case "ifblk":
+		add(func(m map[string]plan.Value) { m["blk"] = plan.Int(0) })
 	}
 	return out
 }
